@@ -527,6 +527,16 @@ class Run:
                 continue
             self.apply(self.choose(menu))
 
+    def det_op(self, menu):
+        """a fixed fair schedule: job ends and batch starts first, then the lowest process that is not merely polling"""
+        for kind in ("jobexit", "startbatch"):
+            for _, op in menu:
+                if op[0] == kind:
+                    return op
+        steps = [op for _, op in menu if op[0] == "step"]
+        busy = [op for op in steps if self.vc.procs[op[1]].at[0] != "SLEEP"]
+        return (busy or steps)[0]
+
     def drain(self):
         while len(self.ops) < MAX_OPS:
             menu = self.menu()
@@ -534,7 +544,7 @@ class Run:
                 if not self.at_quiescence():
                     break
                 continue
-            self.apply(menu[0][1])
+            self.apply(self.det_op(menu))
 
     def at_quiescence(self):
         """nothing can move.  The documented recovery: the user runs try-submit-jobs on the current stage."""
